@@ -87,5 +87,9 @@ C14_diag(r) ==
   ELSE (IF \E i \in 1..Len(r.errs) : r.errs[i].k = ke[1] /\ r.errs[i].c = x THEN {}
         ELSE {<<"no error", ke[1], x>>}) \cup
        (IF \E i \in 1..NT(r) : r.toks[i].ty = ke[2] /\ r.toks[i].c = x /\ r.toks[i].ec = x THEN {}
-        ELSE {<<"no zero-width token", ke[2], x>>})
+        ELSE {<<"no zero-width token", ke[2], x>>}) \cup
+       \* a program cut short with n parentheses open (outside double quotes): one recovery token for each
+       (IF r.fault.kind = "rparen" /\ r.fault.nopen > 0 /\
+           Cardinality({i \in 1..NT(r) : r.toks[i].ty = "RPAREN" /\ r.toks[i].c = x /\ r.toks[i].ec = x}) # r.fault.nopen
+          THEN {<<"recovery tokens", r.fault.nopen>>} ELSE {})
 =============================================================================
